@@ -471,9 +471,12 @@ func runHandler(t *testing.T, name string, n hx.N) {
 		sawSparseAfterFull := false
 		nd := rapid.IntRange(1, 8).Draw(t, "deliveries")
 		for i := 0; i < nd; i++ {
-			kind := rapid.IntRange(0, 8).Draw(t, "kind")
+			kind := rapid.IntRange(0, 9).Draw(t, "kind")
 			if kind == 8 {
 				kind = 7
+			}
+			if kind == 9 && lastOK == nil {
+				kind = 1
 			}
 			if (kind == 5 || kind == 7) && lastOK == nil {
 				kind = 0
@@ -610,6 +613,33 @@ func runHandler(t *testing.T, name string, n hx.N) {
 					t.Fatalf("%s: after delivering (again) %s the rules in force are\n  %v\nwant\n  %v", m.name, h0.payload, got, model)
 				}
 				lastOK = h0.payload
+			case 9: // the list delivered last without its null elements, its last rule repeated up to the old length: another list
+				list, jerr := m.fromJSON(lastOK)
+				var rules []any
+				for _, r := range list {
+					if r != nil && !reflect.ValueOf(r).IsNil() {
+						rules = append(rules, r)
+					}
+				}
+				if jerr != nil || len(rules) == 0 || len(rules) == len(list) {
+					break // (no null element to drop)
+				}
+				for len(rules) < len(list) {
+					rules = append(rules, rules[len(rules)-1])
+				}
+				payload := m.encode(rules)
+				err := deliver(t, h, payload)
+				c.Op("deliver the last list with its null elements dropped and the last rule repeated -> err=%v", err)
+				if err != nil {
+					t.Fatalf("%s: a decodable payload was refused: %v (%s)", m.name, err, payload)
+				}
+				model = sortedKeys(m, rules)
+				if got := m.current(); fmt.Sprint(got) != fmt.Sprint(model) {
+					t.Fatalf("%s: after a list with null elements (%s), the list %s was delivered; the rules in force are\n  %v\nwant the valid rules of the new list\n  %v", m.name, lastOK, payload, got, model)
+				}
+				lastOK = payload
+				okHistory = append(okHistory, okPayload{payload, model})
+				c.Class("list-after-a-list-with-null-elements")
 			case 7: // the list delivered last, again, with ONE field of one rule changed a little: a different list, to be applied
 				list, jerr := m.fromJSON(lastOK)
 				var idx []int
